@@ -357,7 +357,7 @@ impl<T> Display for Router<T> {
 impl<T> Router<T> {
     /// Read-only structural dump of the node tree, for external verification tooling.
     #[must_use]
-    pub fn verif_dump(&self) -> crate::verif::NodeDump {
-        crate::verif::dump_node(&self.root)
+    pub fn verif_dump(&self, value: &dyn Fn(&T) -> u64) -> crate::verif::NodeDump {
+        crate::verif::dump_node(&self.root, value)
     }
 }
